@@ -21,6 +21,10 @@ gradient of the loss (ERM, ES) resp. grad loss / (a loss) (entropic loss).
 Inside fit (check_fit_steps): the gradient handed to the optimiser at EVERY step (a recording optimiser, instance or class,
 owning parameters inside and outside hedger.parameters(), >= 2 epochs, with and without a backward pass made before fit) vs
 autograd / finite differences of that epoch's loss on that epoch's recorded paths, and vs the Lean op "grad_h".
+Grad mode around the entry points (check_grad_mode, a deterministic corpus on every tier): price / price(enable_grad=True) / compute_loss(enable_grad=False) /
+compute_loss / fit (training step, validation) called so that an exception passes through them (seven ways, and not at all), with gradients enabled and inside
+the caller's torch.no_grad() block: torch.is_grad_enabled() afterwards is what it was before, and the hedging loss the caller builds next from compute_pl +
+criterion carries no graph inside no_grad resp. has the gradient of its finite differences (and of the Lean op "grad_h") with gradients enabled.
 """
 import math
 from fractions import Fraction as F
@@ -517,6 +521,239 @@ def check_fit_steps(ctx, torch, nn, Hedger):
             ctx.disagree("grad_h_fit_step", case, gw, float_of_bits(mo["ok"]["grad_w"]))
 
 
+def check_grad_mode(ctx, torch, nn, Hedger):
+    """Every entry point of the hedger that evaluates under a grad mode of its own -- price() (evaluation-only by default), price(enable_grad=True),
+    compute_loss(enable_grad=False), compute_loss(), fit (training steps; validation losses) -- called so that an EXCEPTION passes through it, caught by
+    the caller (several ways: hedging instruments of different sizes, an invalid init_state, a criterion without cash amount, a user criterion that
+    rejects its first / a later evaluation (an aborted search for the cash amount, a later member of an ensemble, a later epoch), a user model that
+    raises at a later time step / member, an interrupt (a BaseException) -- and, as a control, not at all), under both ambient modes (gradients enabled /
+    inside the caller's torch.no_grad() block).  A deterministic corpus: every entry point x way x ambient mode, on every tier; market, features,
+    model, criterion drawn from an own generator.  Predicates, in the ambient block right after the call:
+      * torch.is_grad_enabled() equals the mode before the call;
+      * the hedging loss the caller then builds on an (injected) market from compute_pl + criterion carries no graph inside the caller's no_grad block
+        ("losses with gradients disabled carry no graph"), and with gradients enabled has the back-propagated gradient of its finite differences on
+        the same paths (a loss without graph moves no parameter: zero gradient) -- and of the Lean op "grad_h" (one primary instrument).
+    The global grad mode is put back in a finally block of the harness after every scenario: a detected failure does not reach the rest of the run."""
+    from pfhedge.instruments import BrownianStock
+    g = Gen(f"{ctx.seed}:grad_mode")      # (own generator: the cases of the other parts do not move)
+    dt = torch.float64
+    outer = torch.is_grad_enabled()
+
+    class Rejected(RuntimeError):
+        pass
+
+    class Interrupt(BaseException):
+        """(stands for a KeyboardInterrupt in an interactive session; an own class, so that a genuine one is never swallowed here)"""
+
+    class Fuse:
+        """raises at the `after`-th evaluation of the module that owns it (counted in evaluation mode only when `eval_only`); None: never"""
+        def __init__(self):
+            self.after, self.count, self.eval_only, self.exc = None, 0, False, Rejected
+
+        def tick(self, training):
+            if self.after is None or (self.eval_only and training):
+                return
+            self.count += 1
+            if self.count >= self.after:
+                raise self.exc("the user's module rejects this evaluation")
+
+    class FusedModel(torch.nn.Module):
+        def __init__(self, inner, fuse):
+            super().__init__()
+            self.inner, self.fuse = inner, fuse
+
+        def forward(self, input):
+            self.fuse.tick(self.training)
+            return self.inner(input)
+
+    class FusedCriterion(nn.HedgeLoss):
+        """user criterion wrapping a built-in one (cash amount: HedgeLoss's default search)"""
+        def __init__(self, inner, fuse):
+            super().__init__()
+            self.inner, self.fuse = inner, fuse
+
+        def forward(self, input, target=0.0):
+            self.fuse.tick(self.training)
+            return self.inner(input, target)
+    FUSED = ("criterion-first", "criterion-later", "model-later", "interrupt")
+    WAYS = ("none", "hedge-mismatch", "init-state", "no-cash") + FUSED
+    ENTRIES = ("price", "price-enable", "compute_loss-noenable", "compute_loss", "fit-training", "fit-validation")
+    corpus = [(e_, w_, amb) for e_ in ENTRIES for w_ in WAYS for amb in (True, False)
+              if not (w_ == "no-cash" and not e_.startswith("price")) and not (e_ == "fit-validation" and w_ not in FUSED)]
+    reqs, metas = [], []
+    for idx, (entry, way, ambient) in enumerate(corpus):
+        mk = gen_market(g, N=g.choice([3, 4, 5]), T=g.choice([2, 3, 4, 5]), primary=g.choice(["BrownianStock", "HestonStock"]))
+        mk["cost"] = F(g.choice([0, 4, 16, 32]), 256)
+        mk["option"] = g.choice(["EuropeanOption", "LookbackOption"])
+        N, T = mk["N"], mk["T"]
+        stateful = g.chance(0.5)
+        names = [g.choice(["moneyness", "time_to_maturity", "volatility", "max_moneyness", "underlier_spot", "variance"]) for _ in range(g.choice([1, 2]))]
+        thr = g.choice([x for p in mk["spot"] for x in p])
+        ms = gen_linear(g, len(names) + (1 if stateful else 0), 1, relu=False)
+        critk = "mse" if way == "no-cash" else g.choice(["erm", "es", "eloss"])
+        a = g.choice([0.5, 1.0, 2.0])
+        k = min(g.choice([1, 2, 4]), N) if critk == "es" else None
+        d, u = build_derivative(torch, mk)
+        feats = [feature_obj(torch, nm, mk, thr) for nm in names] + (["prev_hedge"] if stateful else [])
+        inner = model_obj(torch, ms)
+        if critk == "erm":
+            crit0, crit_spec = nn.EntropicRiskMeasure(a), ["erm", float_bits(a)]
+        elif critk == "eloss":
+            crit0, crit_spec = nn.EntropicLoss(a), ["eloss", float_bits(a)]
+        elif critk == "es":
+            crit0, crit_spec = nn.ExpectedShortfall(k / N), ["es", k]
+        else:
+            crit0, crit_spec = torch.nn.MSELoss(), ["mse"]
+        fuse = Fuse()
+        model = FusedModel(inner, fuse) if way in ("model-later", "interrupt") else inner
+        crit = FusedCriterion(crit0, fuse) if way in ("criterion-first", "criterion-later") else crit0
+        hedger = Hedger(model, feats, criterion=crit)
+        params = list(inner.parameters())
+        npaths, later = g.choice([4, 6, 7]), g.choice([2, 3])
+        kw = {"n_paths": npaths, "n_times": 3}
+        arg = None
+        if way == "hedge-mismatch":
+            other = BrownianStock(dt=float(mk["dt"]), dtype=dt)
+            other.simulate(n_paths=npaths + g.choice([1, 3]), time_horizon=(T - 1) * float(mk["dt"]))
+            kw["hedge"] = [u, other]
+            arg = f"hedge=[underlier, a primary with {other.spot.size(0)} paths]"
+        elif way == "init-state":
+            arg, bad = g.choice([("('a',)", ("a",)), ("()", ()), ("(None,)", (None,)), ("(a tensor of n_paths + 1 entries,)", (torch.ones(npaths + 1, dtype=dt),))])
+            kw["init_state"] = bad
+        if way in FUSED:
+            fuse.after = 1 if way in ("criterion-first", "interrupt") else later
+            fuse.eval_only = entry == "fit-validation"
+            fuse.exc = Interrupt if way == "interrupt" else Rejected
+        if entry.startswith("fit"):
+            del kw["n_times"]
+            kw |= {"n_epochs": 3, "verbose": False, "validation": entry == "fit-validation" or way == "none", "n_times": 3}
+        case = {"grad_mode": idx, "entry_point": entry, "exception": way, "argument": arg, "raises_at_evaluation": fuse.after,
+                "ambient": "gradients enabled" if ambient else "inside torch.no_grad()", "call": {k_: v_ for k_, v_ in kw.items() if k_ not in ("hedge", "init_state")},
+                "features": names, "stateful": stateful, "model": model_json(ms), "crit": critk, "a": a, "k": k, "option": mk["option"],
+                "primary": mk["primary"], "N": N, "T": T, "spot": enc_rat(mk["spot"]), "vol": enc_rat(mk["vol"]), "cost": rat_str(mk["cost"]),
+                "strike": rat_str(mk["strike"]), "dt": rat_str(mk["dt"]), "thr": rat_str(thr)}
+        ctx.case(case, True, tag="grad_mode")
+        ctx.stats[f"grad_mode:entry={entry}"] += 1
+        ctx.stats[f"grad_mode:exception={way}"] += 1
+
+        def call():
+            if entry == "price":
+                return hedger.price(d, **kw)
+            if entry == "price-enable":
+                return hedger.price(d, enable_grad=True, **kw)
+            if entry == "compute_loss-noenable":
+                return hedger.compute_loss(d, enable_grad=False, **kw)
+            if entry == "compute_loss":
+                return hedger.compute_loss(d, **kw)
+            return hedger.fit(d, **kw)
+
+        def loss_fn():
+            if critk == "mse":      # (a torch loss: the two-argument form)
+                return crit(hedger.compute_portfolio(d), d.payoff())
+            return crit(hedger.compute_pl(d))
+        torch.manual_seed(g.randint(0, 10 ** 6))
+        loss = grads = None
+        try:
+            with torch.set_grad_enabled(ambient):
+                before = torch.is_grad_enabled()
+                try:
+                    call()
+                    raised = None
+                except (Exception, Interrupt) as e:  # noqa   (what the caller does: catch, go on)
+                    raised = type(e).__name__
+                after = torch.is_grad_enabled()
+                # ---- the hedging loss the caller builds next, in the state the call left behind
+                fuse.after = None
+                hedger.train()
+                inject(torch, u, mk)
+                st, loss, _ = call_impl(loss_fn)
+                if st == "ok" and ambient:
+                    st, grads, _ = (call_impl(torch.autograd.grad, loss, params, allow_unused=True) if loss.requires_grad else ("ok", [None] * len(params), []))
+        finally:
+            torch.set_grad_enabled(outer)
+        ctx.stats[f"grad_mode:raised={raised is not None}"] += 1
+        ctx.traces += 1
+        case = case | {"raised": raised}
+        if after != before:
+            ctx.fail(f"after {'an exception passed through' if raised else 'a call of'} {entry.split('-')[0]}"
+                     + ("(enable_grad=True)" if entry == "price-enable" else "(enable_grad=False)" if entry == "compute_loss-noenable" else "()")
+                     + (f" [{entry}]" if entry.startswith("fit") else "") + f" the caller's grad mode is not restored: torch.is_grad_enabled() was {before} before the "
+                     f"call and is {after} after it", case, key=f"gradmode:{'after-exception' if raised else 'after-call'}:{entry}",
+                     detail={"before": before, "after": after, "exception": raised})
+        if st != "ok":
+            ctx.fail("computing / back-propagating the hedging loss criterion(compute_pl(derivative)) after the call raised", case, key=f"gradmode:loss-error:{entry}",
+                     detail=loss if grads is None else grads)
+            continue
+        if not ambient:
+            if loss.requires_grad or loss.grad_fn is not None:
+                ctx.fail(f"a hedging loss built inside the caller's torch.no_grad() block (compute_pl + criterion) carries a graph after "
+                         f"{'an exception passed through' if raised else 'a call of'} {entry}", case, key=f"graph:after-exception:{entry}", detail={"exception": raised})
+            continue
+        gflat = []
+        for p_, gr in zip(params, grads):
+            gflat += ([0.0] * p_.numel() if gr is None else [float(x) for x in gr.reshape(-1).tolist()])
+        # generic point?  (as in the main loop)
+        with torch.no_grad():
+            unit = hedger.compute_hedge(d)
+            kink = bool((unit.diff(dim=-1).abs()[..., :-1] < 2 ** -20).any()) if mk["cost"] > 0 and T > 2 else False
+            kink = kink or (mk["cost"] > 0 and bool((unit[..., 0].abs() < 2 ** -20).any()))
+            if critk == "es" and k < N:
+                plv = hedger.compute_pl(d).sort().values
+                kink = kink or bool((plv[k] - plv[k - 1]).abs() < 2 ** -20)
+        if kink:
+            ctx.stats["grad_mode:rejected_near_kink"] += 1
+            continue
+        lossv = float(loss.detach())
+        for h, tol in ((2.0 ** -20, 2e-5), (2.0 ** -30, 1e-3)):
+            fd = []
+            with torch.no_grad():
+                for p_ in params:
+                    fl = p_.view(-1)
+                    for i in range(fl.numel()):
+                        old = float(fl[i])
+                        fl[i] = old + h
+                        lp = float(loss_fn())
+                        fl[i] = old - h
+                        lm = float(loss_fn())
+                        fl[i] = old
+                        fd.append((lp - lm) / (2 * h))
+            scale = max(1.0, max(abs(x) for x in fd), abs(lossv))
+            badi = [i for i, (a_, b_) in enumerate(zip(gflat, fd)) if not abs(a_ - b_) <= tol * scale]
+            if not badi:
+                break
+        if badi:
+            ctx.fail(f"the hedging loss built from compute_pl + criterion after {'an exception passed through' if raised else 'a call of'} {entry} "
+                     + ("carries no graph although gradients were enabled before that call (its finite differences on the same paths are not zero)"
+                        if not loss.requires_grad else "has a back-propagated gradient that differs from its finite differences on the same paths"),
+                     case, key=f"grad:after-exception:{entry}", detail={"autograd": gflat, "finite_difference": fd, "params": badi, "requires_grad": bool(loss.requires_grad)})
+        # ---- model (dual numbers), op "grad_h": one primary hedging instrument, the model computes the payoff
+        reqs.append({"op": "grad_h", "features": [feature_json(nm, thr) for nm in names] + ([["prev_hedge"]] if stateful else []),
+                     "layers": [{"w": enc_flt(l_.weight.detach().tolist()), "b": enc_flt(l_.bias.detach().tolist())}      # (fit has moved the parameters)
+                                for l_ in inner.modules() if isinstance(l_, torch.nn.Linear)],
+                     "payoff": {"kind": "european" if mk["option"] == "EuropeanOption" else "lookback", "call": mk["call"], "strike": float_bits(float(mk["strike"]))},
+                     "adds": [], "first": True, "crit": crit_spec,
+                     "paths": [{"market": market_json(mk, p), "hedges": [{"kind": "primary", "row": enc_flt([float(x) for x in mk["spot"][p]]),
+                                                                          "cost": float_bits(float(mk["cost"]))}]} for p in range(N)]})
+        metas.append((case, lossv, gflat))
+    ctx.extra["grad_mode_scenarios"] = len(corpus)
+    ctx.extra["grad_mode_scenarios_sent_to_grad_h"] = len(reqs)
+    try:
+        outs = ctx.driver(reqs) if reqs else []
+    except DriverBroken as e:
+        ctx.ties_broken.append({"kind": "driver", "detail": str(e)[:1500]})
+        outs = []
+    for (case, loss, gflat), mo in zip(metas, outs):
+        if "ok" not in mo:
+            ctx.disagree("grad_h_after_exception", case, gflat, mo)
+            continue
+        ml, mg = float_of_bits(mo["ok"]["loss"]), dec_flt(mo["ok"]["grad"])
+        scale = max(1.0, abs(loss), max([abs(x) for x in gflat] + [0.0]))
+        if not abs(ml - loss) <= 1e-10 * scale:
+            ctx.disagree("grad_h_after_exception_loss_value", case, loss, ml)
+        elif len(mg) != len(gflat) or any(not abs(a_ - b_) <= 1e-9 * scale for a_, b_ in zip(gflat, mg)):
+            ctx.disagree("grad_h_after_exception", case, gflat, mg)
+
+
 def check(ctx):
     torch, pfhedge = import_impl()
     import pfhedge.nn as nn
@@ -700,6 +937,7 @@ def check(ctx):
             ctx.disagree("grad_vs_grad_h", case, [ml] + mg, [hl] + hg)
     check_multi(ctx, torch, nn, Hedger)
     check_fit_steps(ctx, torch, nn, Hedger)
+    check_grad_mode(ctx, torch, nn, Hedger)
     # ---------------- evaluation-only quantities carry no graph; ensembles (n_times >= 2) have the gradient of their mean
     from pfhedge.instruments import BrownianStock, HestonStock, EuropeanOption, LookbackOption
     from pfhedge.nn.modules.loss import OCE
@@ -1160,4 +1398,11 @@ def check(ctx):
              "hedger.parameters() (incl. OCE's w) or as a class, with and without validation, an explicit hedge list, a backward pass made before fit "
              "(stale .grad); the gradient present at every step() vs autograd of criterion(compute_portfolio, payoff) at that epoch's parameter point on "
              "that epoch's recorded buffers (1e-9 / 1e-5 of the scale), vs central finite differences at the last epoch, and (no feature network, "
-             "criterion of CritH, dyadic cost rates) vs the eps-parts of op grad_h on the recorded paths")
+             "criterion of CritH, dyadic cost rates) vs the eps-parts of op grad_h on the recorded paths. "
+             "Grad mode (82 scenarios on every tier: entry point in {price, price(enable_grad=True), compute_loss(enable_grad=False), compute_loss, fit training step, fit "
+             "validation} x exception in {none, hedging instruments of different sizes, invalid init_state, criterion without cash (price), user criterion raising at its "
+             "first / a later evaluation, user model raising at a later evaluation, a BaseException from the model} x ambient mode in {gradients enabled, inside "
+             "torch.no_grad()}; injected dyadic markets, linear models, ERM / ES / entropic loss / MSE): torch.is_grad_enabled() after the (caught) call equals the mode "
+             "before it; the loss criterion(compute_pl) built next carries no graph inside no_grad, and with gradients enabled its autograd gradient (zero without graph) "
+             "vs central finite differences (2^-20 at 2e-5, then 2^-30 at 1e-3; cases near a kink rejected and counted) and vs op grad_h (1e-9 / 1e-10); the harness "
+             "restores the global grad mode in a finally block after every scenario")
